@@ -49,6 +49,19 @@ def get_kernel(req):
         S.kernels[key] = get_model(req["model"]).make_kernel(qvec(req))
     return S.kernels[key]
 
+def get_kernel_same_arrays(req):
+    # the caller keeps ONE set of q arrays per (model, shape), rewrites their contents in place for every request and
+    # asks for a new kernel on the same array objects (what a GUI does with its plot buffers)
+    shape = tuple(len(v) for v in req["q"])
+    key = (req["model"], shape)
+    if not hasattr(S, "qobj"):
+        S.qobj = {}
+    if key not in S.qobj:
+        S.qobj[key] = [np.zeros(n, "d") for n in shape]
+    for arr, v in zip(S.qobj[key], req["q"]):
+        arr[:] = v
+    return get_model(req["model"]).make_kernel(S.qobj[key])
+
 def same(a, b):
     if isinstance(a, dict):
         return isinstance(b, dict) and list(a.keys()) == list(b.keys()) and all(same(a[k], b[k]) for k in a)
@@ -84,7 +97,7 @@ def handle(req):
         generate.set_integration_size(info, req["n"])
         return out
     if op in ("call_kernel", "call_Fq"):
-        k = get_kernel(req)
+        k = get_kernel_same_arrays(req) if req.get("same_q_arrays") else get_kernel(req)
         pars = dict(req["pars"])
         before = copy.deepcopy(pars)
         qb = [v.copy() for v in k.q_input.q.T] if hasattr(k, "q_input") and k.q_input is not None else None
@@ -462,6 +475,11 @@ def main(run):
     histories.insert(1, [dict(op="sasview", model="sphere", q=[[0.01, 0.05, 0.2]], cutoff=0.0, settings=st_full),
                          dict(op="call_kernel", model="sphere", q=[[0.01, 0.05, 0.2]], cutoff=0.0, pars={"radius": 50.0, "radius_pd": 0.1, "radius_pd_n": 10, "radius_pd_nsigma": 2.0}),
                          dict(op="sasview", model="sphere", q=[[0.01, 0.05, 0.2]], cutoff=0.0, settings=st_dflt, fresh_dispersers=["radius"])])
+    # corpus: one pair of q arrays whose CONTENTS change between requests (same objects, new kernel each time)
+    histories.insert(1, [dict(op="call_kernel", model="sphere", q=[qv_], cutoff=0.0, pars={"radius": 50.0, "radius_pd": 0.1, "radius_pd_n": 5}, same_q_arrays=True)
+                         for qv_ in ([0.01, 0.05, 0.2], [0.02, 0.1, 0.4], [0.015, 0.06, 0.3])] +
+                        [dict(op="call_kernel", model="cylinder", q=qv_, cutoff=0.0, pars={"radius": 20.0, "length": 300.0, "theta": 40.0, "phi": 10.0}, same_q_arrays=True)
+                         for qv_ in ([[0.03, -0.05, 0.1], [0.04, 0.05, -0.02]], [[0.06, -0.1, 0.2], [0.08, 0.1, -0.04]])])
     # corpus: a long thin cylinder at high q (sensitive to the size of the orientation quadrature), a variant of the
     # model with 150 Gauss points is derived, the model is loaded again by name and evaluated
     cyl_ = dict(op="call_kernel", model="cylinder", q=[[0.1, 0.2, 0.3]], cutoff=0.0, pars={"radius": 20.0, "length": 3000.0})
